@@ -212,7 +212,7 @@ def plan_programs(by_kind, tier, seed):
             for h in select(by_kind[kind], per, rng, ops if k == 0 else sweep):
                 hid += 1
                 progs.append((hid, sh, h))
-        if kind == "A" and len(MODELS[m][2]) > 1:
+        if kind in ("A", "S") and len(MODELS[m][2]) > 1:
             # cross-shape histories (hand-written, not from Manifold.tla whose histories keep one shape): a type-erased
             # object is copy-assigned from one of ANOTHER run-time dof and must then report / use the new dof
             base = list(MODELS[m][2])
@@ -349,7 +349,7 @@ def required_cells(oc, plan):
                 continue
             if not any(k.startswith(f"{name}|{op}|") for k in keys):
                 missing.append(f"{name}|{op}")
-        if kind == "A" and len(MODELS[m][2]) > 1 and not any(k.startswith(f"{name}|assign|") and "~xdof" in k for k in keys):
+        if kind in ("A", "S") and len(MODELS[m][2]) > 1 and not any(k.startswith(f"{name}|assign|") and "~xdof" in k for k in keys):
             missing.append(f"{name}|assign: no copy assignment over an object of another dof")
     # exhaustive sweeps, from the shapes the SPEC derived out of the recorded values
     def shapes_seen(name, op):
